@@ -324,3 +324,66 @@ func errClass(err error) string {
 
 var _ = strings.Join
 var _ = crypto.ListSchemes
+
+// infoPaths: one chain Info (any period, including fractions of a second) through every
+// encoding path that carries a chain info; the chain hash computed after each path must be the
+// hash of the Info in memory, and the hash a packet embeds must be the hash of the fields it
+// carries.
+func (e *hashEngine) infoPaths(info *chain.Info, what string) {
+	want := info.Hash()
+	desc := map[string]interface{}{"scheme": info.Scheme, "id": info.ID, "period": info.Period.String(), "period_ns": int64(info.Period),
+		"genesis_time": info.GenesisTime, "public_key": hex.EncodeToString(pointBytes(info.PublicKey)),
+		"genesis_seed": hex.EncodeToString(info.GenesisSeed), "hash_in_memory": hex.EncodeToString(want), "case": what}
+	chk := func(path string, got *chain.Info, err error) {
+		e.rep.Count("infopath/" + path)
+		in := map[string]interface{}{"path": path}
+		for k, v := range desc {
+			in[k] = v
+		}
+		if err != nil || got == nil || got.PublicKey == nil {
+			in["error"] = errClass(err)
+			e.rep.Fail("C17-hash-differs-across-encoding-paths", "the chain info is rejected on the "+path+" path, so its hash cannot be recomputed there", in)
+			return
+		}
+		if h := got.Hash(); !bytes.Equal(h, want) {
+			in["hash_after_path"] = hex.EncodeToString(h)
+			in["period_after_path"] = got.Period.String()
+			e.rep.Fail("C17-hash-differs-across-encoding-paths", "the chain hash of the Info decoded from the "+path+" form differs from the hash of the Info in memory", in)
+		}
+	}
+	p := cloneInfo(info).ToProto(nil)
+	i2, err := chain.InfoFromProto(p)
+	chk("proto", i2, err)
+	if err == nil && i2 != nil {
+		e.rep.Count("infopath/embedded")
+		if !bytes.Equal(p.Hash, i2.Hash()) {
+			in := map[string]interface{}{"path": "proto", "embedded_hash": hex.EncodeToString(p.Hash), "hash_of_carried_fields": hex.EncodeToString(i2.Hash()), "packet_period_s": p.Period}
+			for k, v := range desc {
+				in[k] = v
+			}
+			e.rep.Fail("C17-packet-embedded-hash-mismatch", "the hash embedded in the ChainInfoPacket is not the hash of the fields the packet carries", in)
+		}
+	}
+	wire, err := proto.Marshal(p)
+	var i3 *chain.Info
+	if err == nil {
+		q := new(pb.ChainInfoPacket)
+		if err = proto.Unmarshal(wire, q); err == nil {
+			i3, err = chain.InfoFromProto(q)
+		}
+	}
+	chk("protowire", i3, err)
+	var buf bytes.Buffer
+	err = cloneInfo(info).ToJSON(&buf, nil)
+	var i4 *chain.Info
+	if err == nil {
+		i4, err = chain.InfoFromJSON(&buf)
+	}
+	chk("packetjson", i4, err)
+	js, err := json.Marshal(cloneInfo(info))
+	var i5 chain.Info
+	if err == nil {
+		err = json.Unmarshal(js, &i5)
+	}
+	chk("v2json", &i5, err)
+}
